@@ -116,14 +116,17 @@ def missingPass (now : Nat) (countMissing : Bool) (maxTsnRetransmits : Nat) (max
     let y := missingPass now countMissing maxTsnRetransmits maxRep rest x.1
     (x.2 :: y.1, y.2)
 
+/-- step 0, the late-SACK filter: the cumulative TSN is serially before `lowest − 1` (lowest =
+numerically first key of the BTreeMap) and so is every gap block end -/
+def lateSack (q : List SRec) (cum : UInt32) (gaps : List (UInt16 × UInt16)) : Bool :=
+  match q with
+  | [] => false
+  | lo :: _ => i32Neg (cum - (lo.tsn - 1)) && i32Neg (maxReportedOf cum gaps - lo.tsn)
+
 /-- `apply_sack_to_sent_queue` -/
 def applySack (q : List SRec) (cum : UInt32) (gaps : List (UInt16 × UInt16)) (now : Nat)
     (countMissing : Bool) (maxTsnRetransmits : Nat) : List SRec × SackOutcome :=
-  let late :=
-    match q with
-    | [] => false
-    | lo :: _ => i32Neg (cum - (lo.tsn - 1)) && i32Neg (maxReportedOf cum gaps - lo.tsn)
-  if late then (q, {})
+  if lateSack q cum gaps then (q, {})
   else
     let maxRep := maxReportedOf cum gaps
     let o0 : SackOutcome := { maxReported := maxRep }
